@@ -5,7 +5,7 @@
    Only statements; every proof is `exact <lemma>` (proofs live in the files imported below). *)
 From Coq Require Import Arith List Bool Reals Floats.
 Import ListNotations.
-From MT Require Import Arith J SweepModel RInst Spec InitModel CtrlModel CtrlSpec CtrlProofs LikProofs GenGuards GuardDefs GuardLik.
+From MT Require Import Arith J SweepModel RInst Spec InitModel CtrlModel CtrlSpec CtrlProofs LikProofs.
 Local Open Scope R_scope.
 
 (* whenever every observed pair has rate > 1e-6: the likelihood is sum_a sum_ij A_ija ln M_ija - M_ija with A the number of *)
@@ -68,19 +68,4 @@ Theorem C06_cadence : forall (num : Type) (A : Arith num) (W : Type)
          ls_L2 c = Lseq num W sweepf likf r s0 ((n - 1) / 10) /\ rs <> NoTerm.
 Proof. exact realization_spec. Qed.
 Print Assumptions C06_cadence.
-
-(* the log term is taken where log_arg > 1e-6 (strict), as the source stands now *)
-Theorem C06_log_guard_operator : map (fun r : String.string * String.string * String.string * String.string => (g_lhs r, g_op r))
-         (filter is_lik cxx_guards) =
-       [(String.String (Ascii.Ascii false false true true false true true false)
-           (String.String (Ascii.Ascii true true true true false true true false)
-              (String.String (Ascii.Ascii true true true false false true true false)
-                 (String.String (Ascii.Ascii true true true true true false true false)
-                    (String.String (Ascii.Ascii true false false false false true true false)
-                       (String.String (Ascii.Ascii false true false false true true true false)
-                          (String.String (Ascii.Ascii true true true false false true true false)
-                             String.EmptyString)))))),
-         String.String (Ascii.Ascii false true true true true true false false) String.EmptyString)].
-Proof. exact likelihood_guard. Qed.
-Print Assumptions C06_log_guard_operator.
 
